@@ -512,6 +512,19 @@ def external(fr, dotted, args, kw, extra, n):
 
     if top == 'numpy':
         ctx.consulted.add('numpy.' + name)
+        def same_type(x, dt):
+            # the conversion is the identity when the operand already has that element type
+            x = x[1] if x[0] == 'nd' else x
+            if dt in (('builtin', 'int'), C('int')):
+                return T.is_intarr(x) or (x[0] in ('list', 'tuple') and all(T.is_int(e) for e in x[1])) or (x[0] == 'map' and T.is_int(x[2])) or \
+                    (x[0] == 'arr' and x[1][0] == 'call' and x[1][1] in ('zeros', 'ones', 'empty') and dict(x[1][3]).get('dtype') == C('int'))
+            if dt in (('builtin', 'bool'), C('bool')):
+                return T.is_boolarr(x)
+            return False
+        if name in ('array', 'asarray') and a0 is not None and (kw.get('dtype', NONE) != NONE or (len(args) > 1 and args[1] != NONE)) \
+                and not same_type(a0, kw.get('dtype', args[1] if len(args) > 1 else NONE)):
+            # an explicit dtype is a conversion of the element type (float32 / integer input no longer computes in its own type)
+            return ('nd', T.call('astype', (a0[1] if a0[0] == 'nd' else a0, kw.get('dtype', args[1] if len(args) > 1 else NONE))))
         if name in ('array', 'asarray') and a0 is not None:
             # value preserving; only the python type changes (list -> ndarray), recorded by a transparent wrapper
             return a0 if term_kind(fr, a0) == 'ndarray' else ('nd', a0)
